@@ -55,6 +55,18 @@ func VerifC09Env(mask, viaStage, free int) {
 	if has[5] {
 		def.Variations = []map[string]string{{"FOO": val[5]}}
 	}
+	// optionally a second variation that does not define the name (only one of its own): what the
+	// first variation set is not "the current variation" for the second one
+	second := rt.Bool("a-second-variation-that-does-not-define-the-name")
+	vExtraProbe = ""
+	if second {
+		first := map[string]string{"ONLY_FIRST": "1"}
+		if has[5] {
+			first["FOO"] = val[5]
+		}
+		def.Variations = []map[string]string{first, {"ONLY_SECOND": "2"}}
+		vExtraProbe = "ONLY_FIRST"
+	}
 	t, err := buildTask(def, &loaderContext{Dir: "/proj"})
 	rt.Assert(err == nil, "C09.task-built")
 	if err != nil {
@@ -82,9 +94,29 @@ func VerifC09Env(mask, viaStage, free int) {
 		rt.Assert(r.Run(t) == nil, "C09.task-ran")
 	}
 
-	rt.Assert(len(vInterpRuns) == 1, "C09.command-executed-once")
-	if len(vInterpRuns) != 1 {
-		return
+	if second {
+		rt.Assert(len(vInterpRuns) == 2, "C09.command-executed-once-per-variation")
+		if len(vInterpRuns) != 2 {
+			return
+		}
+		// the second variation's command: the variation level is absent for it
+		s2 := vInterpRuns[1]
+		w2, w2Set := "", false
+		for l := 0; l < 5; l++ {
+			if has[l] {
+				w2, w2Set = val[l], true
+			}
+		}
+		rt.Assert(s2.FooSet == w2Set, "C09.second-variation.name-defined-iff-a-level-below-the-variation-defines-it")
+		rt.Assert(s2.Foo == w2, "C09.second-variation.an-earlier-variation's-value-is-not-the-current-variation's")
+		rt.Assert(s2.Extra == "", "C09.second-variation.does-not-see-the-first-variation's-own-names")
+		rt.Assert(vInterpRuns[0].Extra == "1", "C09.first-variation-sees-its-own-names")
+		rt.Cover("C09.two-variations")
+	} else {
+		rt.Assert(len(vInterpRuns) == 1, "C09.command-executed-once")
+		if len(vInterpRuns) != 1 {
+			return
+		}
 	}
 	seen := vInterpRuns[0]
 	// expected: the highest level present
